@@ -21,9 +21,9 @@ def main():
     spec = json.loads(sys.argv[1])
     warnings.simplefilter("ignore")
     import joblib
-    kind = spec["kind"]; work = spec["work"]; log = os.path.join(work, "exec.log")
-    mem = joblib.Memory(spec["root"], verbose=0)
-    objs = {}      # slot -> (function, memorized)
+    kind = spec["kind"]; work = spec["work"]; log = spec.get("log") or os.path.join(work, "exec.log")
+    mems = {st: joblib.Memory(os.path.join(spec["root"], "store%s" % st), verbose=0) for st in spec.get("stores", [1])}
+    objs = {}      # slot -> (function, {store: memorized})
     codes = {}     # version -> code object (for swaps)
     ndef = [0]
 
@@ -50,7 +50,7 @@ def main():
         try:
             if op["op"] == "define":
                 f = define(op["v"], op.get("shift", 0))
-                objs[op["i"]] = (f, mem.cache(f))
+                objs[op["i"]] = (f, {st: m.cache(f) for st, m in mems.items()})
                 codes[op["v"]] = f.__code__
             elif op["op"] == "swap":
                 if op["v"] not in codes:
@@ -58,13 +58,13 @@ def main():
                 objs[op["i"]][0].__code__ = codes[op["v"]]
             elif op["op"] == "call":
                 before = os.path.getsize(log) if os.path.exists(log) else 0
-                rec["value"] = objs[op["i"]][1](op["k"])
+                rec["value"] = objs[op["i"]][1][op.get("s", 1)](op["k"])
                 after = os.path.getsize(log) if os.path.exists(log) else 0
                 rec["executed"] = after > before
             elif op["op"] == "check":
-                rec["value"] = bool(objs[op["i"]][1].check_call_in_cache(op["k"]))
+                rec["value"] = bool(objs[op["i"]][1][op.get("s", 1)].check_call_in_cache(op["k"]))
             elif op["op"] == "clear":
-                objs[op["i"]][1].clear(warn=False)
+                objs[op["i"]][1][op.get("s", 1)].clear(warn=False)
             elif op["op"] == "quit":
                 break
             else:
